@@ -1031,14 +1031,17 @@ func (c *Client) trySwitchingProtocol() error {
 		Profile:  prevProfile,
 	}
 
-	// some Hikvision cameras require a describe before a setup
-	_, _, err := c.doDescribe(c.lastDescribeURL)
-	if err != nil {
-		return err
+	// some Hikvision cameras require a describe before a setup.
+	// it can be repeated only if the client has sent one before.
+	if c.lastDescribeURL != nil {
+		_, _, err := c.doDescribe(c.lastDescribeURL)
+		if err != nil {
+			return err
+		}
 	}
 
 	for i, cm := range prevMedias {
-		_, err = c.doSetup(prevBaseURL, cm.media, 0, 0)
+		_, err := c.doSetup(prevBaseURL, cm.media, 0, 0)
 		if err != nil {
 			return err
 		}
@@ -1049,7 +1052,7 @@ func (c *Client) trySwitchingProtocol() error {
 		}
 	}
 
-	_, err = c.doPlay(c.lastRange)
+	_, err := c.doPlay(c.lastRange)
 	if err != nil {
 		return err
 	}
